@@ -20,6 +20,8 @@ struct WorkOnly { k: u32, l: vec2<u32> }
 struct Deep { @location(4) a: f32, @location(5) b: vec2<f32> }
 struct Sprite { uv: mat2x2<f32>, layer: f32 }
 @group(0) @binding(6) var<storage, read> sprites: array<Sprite, 3>;
+struct Mx { n: mat3x3<f32>, s: f32, m23: mat2x3<f32>, m43: mat4x3<f32>, arr: array<mat3x3<f32>, 2> }
+@group(0) @binding(7) var<uniform> mx: Mx;
 struct Light { c: vec4<f32> }
 struct Inst { @location(11) m: vec4<f32> }
 struct Scene { first: Inst, key: Light, fill: Light }
@@ -36,7 +38,7 @@ var<workgroup> wg: WorkOnly;
 '''
 HOST_SHAREABLE = {'Inner': True, 'Host': True, 'Uni': True, 'VOnly': False, 'VBoth': True, 'WorkOnly': True, 'Deep': True, 'HB': True,
                   'Light': True, 'Inst': True, 'Scene': True,
-                  'Sprite': True}     # WGSL size 24: not a multiple of 16 although it holds a mat2x2 (16-aligned in glam, 8-aligned in WGSL)      # Inst: entry argument AND nested next to a struct that is met twice
+                  'Sprite': True, 'Mx': True}     # WGSL size 24: not a multiple of 16 although it holds a mat2x2 (16-aligned in glam, 8-aligned in WGSL)      # Inst: entry argument AND nested next to a struct that is met twice
 
 
 def run(ctx):
